@@ -31,11 +31,12 @@ type ScanPayload struct {
 
 // ScanCell is one Scan call: destination type × container shape.
 type ScanCell struct {
-	Dest  string   `json:"dest"`
-	Shape string   `json:"shape"` // struct (field Val with tag prolog:"X") | map (map[string]T)
-	Err   string   `json:"err,omitempty"`
-	Val   *GoVal   `json:"val,omitempty"`  // what the destination holds after a nil error
-	Keys  []string `json:"keys,omitempty"` // map shape: the keys present after Scan
+	Dest  string            `json:"dest"`
+	Shape string            `json:"shape"` // struct (field Val with tag prolog:"X") | map (map[string]T)
+	Err   string            `json:"err,omitempty"`
+	Val   *GoVal            `json:"val,omitempty"`  // what the destination holds after a nil error
+	Keys  []string          `json:"keys,omitempty"` // map shape: the keys present after Scan
+	All   map[string]*GoVal `json:"all,omitempty"`  // map shape: what every key holds after a nil error
 }
 
 // ScanResult is the Result.R of kind "scan".
